@@ -74,6 +74,12 @@ theorem c19_topk :
     exact hr
   · exact Or.inr h
 
+omit T in
+/-- the executable predicate the harness evaluates on the REAL result (driver op `istopk`) is
+exactly the specification used in `c19_topk` -/
+theorem c19_isTopKB_iff [DecidableEq ρ] [DecidableEq α] (k : Nat) (all res : List (Entry (Feat ρ) α)) :
+    isTopKB le k all res = true ↔ IsTopK le k all res := isTopKB_iff le k all res
+
 /-- For the code as written the seed pool is just the placeholders: every returned pair is an
 evaluated pair carrying the score the function gave, or the placeholder (zeros, −∞). -/
 theorem c19_reported_score_is_function_value (x : Entry (Feat ρ) α)
